@@ -16,7 +16,7 @@
    the token of an un-taken snapshot is never returned) is the Go runtime's and syncLoop's business and is
    assumed, not proved. *)
 From Coq Require Import List NArith ZArith Bool Relations.
-From LS Require Import Receiver.Model Receiver.Basics Receiver.Inv Receiver.Progress Receiver.Proofs.
+From LS Require Import Receiver.Model Receiver.Basics Receiver.Inv Receiver.Progress Receiver.Own Receiver.Proofs.
 Import ListNotations.
 Open Scope N_scope.
 
@@ -136,29 +136,44 @@ Theorem C16_once_waits : forall c h s, reach c h s -> s_wait s <> [] -> s_exited
 Proof. exact once_waits. Qed.
 Print Assumptions C16_once_waits.
 
-(* it ends by itself.  FULL STATEMENT (false, see C16_once_exits_refuted):
-     forall c s, good c s -> s_started s = true -> quiescent c s -> c_once c = true -> s_exited s = true.
-   TRUE PART: the same with the extra hypothesis that no poll (includingOwn = false) has ever found a not
-   yet notified name of the OWN instance — in particular when the own instance's newest snapshot at
-   start-up decodes. *)
-Theorem C16_once_exits_partial : forall c s,
-  good c s -> s_started s = true -> quiescent c s ->
-  c_once c = true -> s_ownskip s = false -> s_exited s = true.
+(* it ends by itself: in a state reached by a history in which, while the own instance was still waited
+   for, nobody stored a blob under the own instance's name and nobody deleted the own snapshot the receiver
+   was after ([reach_calm], Receiver/Own.v — every other bucket evolution, every fault and every
+   interleaving is allowed), once the bucket is stable and nothing useful is left to do, syncLoop has
+   returned.  This needs the rule of RunOnce as fixed in /repo (the own downloader is notified again when
+   the own snapshot it was last told about has been ignored): with the rule before the fix it is false even
+   for calm histories, see C16_regression_own_corrupt_old_rule. *)
+Theorem C16_once_exits : forall c h s,
+  reach_calm c h s -> synced s -> s_started s = true -> quiescent c s ->
+  c_once c = true -> s_exited s = true.
 Proof. exact once_exits. Qed.
-Print Assumptions C16_once_exits_partial.
+Print Assumptions C16_once_exits.
 
-(* What is missing, and it is missing in /repo too (replayed on the real Sync): if the newest snapshot of
-   the OWN instance does not decode, it is marked corrupt and d.last is set to it; when the downloader's
-   retry check comes before the next poll it goes back to waiting for a signal; the poll then promotes the
-   older own snapshot but skips the own instance (`!includingOwn && inst == r.ownInstance`), so nobody
-   ever signals.  waitingForInstances = {own} for ever: with only_once the program never returns, and in
-   every mode "Waiting to load own old snapshot before writing a new one" blocks all uploads. *)
-Theorem C16_once_exits_refuted :
+(* the same from a state-level hypothesis instead of one on the history: no poll has skipped a not yet
+   notified own name while the own instance was waited for; and that this is what calm histories give *)
+Theorem C16_once_exits_state : forall c s,
+  good c s -> s_started s = true -> quiescent c s ->
+  c_once c = true -> (own_waiting c s = true -> s_ownskip s = false) -> s_exited s = true.
+Proof. exact once_exits_state. Qed.
+Print Assumptions C16_once_exits_state.
+
+Theorem C16_once_calm : forall c h s,
+  reach_calm c h s -> own_waiting c s = true -> s_ownskip s = false.
+Proof. exact calm_no_ownskip. Qed.
+Print Assumptions C16_once_calm.
+
+(* WITHOUT the environment assumption the statement
+     forall c h s, reach c h s -> synced s -> s_started s = true -> quiescent c s -> c_once c = true -> s_exited s = true
+   is false: if the NEWEST own snapshot is deleted during start-up before it was loaded and the next-newest
+   one does not decode, the polls skip the own instance (the name notified about is gone, not ignored) and
+   the third-newest is never loaded.  The witness below is not [reach_calm]. *)
+Theorem C16_once_exits_unconditional_refuted :
   exists c h s, reach c h s /\ good c s /\ s_started s = true /\ quiescent c s /\ c_once c = true /\
                 s_exited s = false /\ s_wait s = [c_own c] /\
-                newest_ok (s_bucket s) (c_own c) <> None /\ last_deliv (s_deliv s) (c_own c) = None.
-Proof. exact once_exits_refuted. Qed.
-Print Assumptions C16_once_exits_refuted.
+                newest_ok (s_bucket s) (c_own c) <> None /\ last_deliv (s_deliv s) (c_own c) = None /\
+                ~ reach_calm c h s.
+Proof. exact once_exits_unconditional_refuted. Qed.
+Print Assumptions C16_once_exits_unconditional_refuted.
 
 (* ---------------------------------------------------------------------------------------------- *)
 (* non-vacuity: a concrete run (three instances, limits 1/1, an undecodable newest snapshot)         *)
@@ -175,10 +190,30 @@ Example C16_example_run :
 Proof. split; [exact demo_reach | exact demo_facts]. Qed.
 
 Example C16_example_once :
+  reach_calm (demo_cfg true) (rev (demo_trace ++ [LBottom]) ++ []) demo_state_once /\
   good (demo_cfg true) demo_state_once /\ s_started demo_state_once = true /\
   quiescent (demo_cfg true) demo_state_once /\ c_once (demo_cfg true) = true /\
   s_ownskip demo_state_once = false /\ s_exited demo_state_once = true /\ s_init demo_state_once = [1; 2].
-Proof. exact demo_facts_once. Qed.
+Proof. split; [exact demo_reach_calm_once | exact demo_facts_once]. Qed.
+
+(* regression for the defect repaired in /repo (receiver.RunOnce): own instance 0 with an older good and a
+   newest undecodable snapshot.  Under the rule BEFORE the fix ([step_old]: own instance always skipped by
+   polls) the history ends with downloader 0 idle, no signal, the good snapshot listed but never notified,
+   waitingForInstances = {0}, and the loop bottom not exiting; under the CURRENT rule the very same history
+   continues to the delivery of the good snapshot and to the exit. *)
+Example C16_regression_own_corrupt_old_rule :
+  exists s, run_old wedge_cfg (init wedge_cfg) wedge_trace = Some s /\
+    s_pend s = None /\ s_wait s = [0] /\ s_exited s = false /\ s_deliv s = [] /\
+    s_dl s 0 = Some (mkDl false (Some (mkName 0 1 false KSnap)) Idle) /\
+    alook (s_seen s) 0 = Some (mkName 0 0 true KSnap) /\ s_notif s 0 = Some (mkName 0 1 false KSnap) /\
+    step_old wedge_cfg s (LWake 0) = None /\ step_old wedge_cfg s (LNext 0) = None /\
+    (exists s', step_old wedge_cfg s LBottom = Some s' /\ s_wait s' = [0] /\ s_exited s' = false).
+Proof. exact wedge_old_rule. Qed.
+
+Example C16_regression_own_corrupt_new_rule :
+  exists s, run_calm wedge_cfg (init wedge_cfg) (wedge_trace ++ wedge_rest) = Some s /\
+    s_deliv s = [mkName 0 0 true KSnap] /\ s_wait s = [] /\ s_exited s = true /\ s_ownskip s = false.
+Proof. exact wedge_new_rule. Qed.
 
 (* a state with a snapshot ready for Next and one download in flight, limits 1/1 (hypotheses of
    C16_newest_only and a non-trivial instance of C16_limits) *)
